@@ -806,6 +806,60 @@ func g9Methods(c *Ctx, specs ...methodSpec) {
 			default:
 				yes = true
 			}
+			if !yes {
+				// completeness: a method with the right name, arity and result kind must be recognised whatever else is true of it
+				// (its parameter may be the type itself, a pointer, an interface literal or a declared interface type): a rejecting
+				// path on which one method passed every shape test was turned down by a further test
+				for k := 0; k < 3; k++ {
+					mk := fmt.Sprintf("t[%d]", k)
+					hasM := func(pred func(d Decision) bool) bool {
+						for _, d := range in.decisions {
+							if strings.Contains(d.Sym, mk) && pred(d) {
+								return true
+							}
+						}
+						return false
+					}
+					nameOK := hasM(func(d Decision) bool {
+						if !strings.Contains(d.Sym, ".Name()") || !strings.HasSuffix(strings.TrimPrefix(d.Sym, "B:"), sp.method) {
+							return false
+						}
+						neq := strings.Contains(d.Sym, "!="+sp.method)
+						return (neq && d.Choice == 1) || (!neq && d.Choice == 0)
+					})
+					arityOK := func(which string, want int) bool {
+						return hasM(func(d Decision) bool {
+							return strings.HasPrefix(d.Sym, "N:") && strings.HasSuffix(d.Sym, "."+which+"()") && d.Choice < len(ar) && ar[d.Choice] == want
+						})
+					}
+					kindOK := true
+					if sp.kind != types.Invalid {
+						kk := fmt.Sprint(int(sp.kind))
+						kindOK = hasM(func(d Decision) bool {
+							if !strings.Contains(d.Sym, ".Kind()") {
+								return false
+							}
+							neq := strings.HasSuffix(d.Sym, "!="+kk)
+							eq := strings.HasSuffix(d.Sym, "=="+kk)
+							return (neq && d.Choice == 1) || (eq && d.Choice == 0)
+						})
+					}
+					if sp.kind == types.Invalid && hasM(func(d Decision) bool { return strings.Contains(d.Sym, ".Results()[") }) {
+						// the predicate is free to restrict the result type where the specification leaves it open (Hash)
+						kindOK = false
+					}
+					if nameOK && arityOK("Params", sp.nparams) && arityOK("Results", sp.nresults) && kindOK {
+						var ss []string
+						for _, d := range in.decisions {
+							ss = append(ss, fmt.Sprintf("%s=%d/%d", d.Sym, d.Choice, d.N))
+						}
+						c.Rep.fail(Finding{Rule: "G9", Key: "G9|" + sp.fn + "|rejects a method of the right shape", Where: []string{c.Repo.pos(fi.Decl.Pos())},
+							Msg:    fmt.Sprintf("%s does not recognise a method called %s with %d parameter(s) and %d result(s) of the right kind because of a further test on it: the type's own method is then silently ignored and the component is compared (hashed, copied) structurally, although the method decides wherever it is recognised", sp.fn, sp.method, sp.nparams, sp.nresults),
+							Detail: "path: " + strings.Join(ss, "; ")})
+						break
+					}
+				}
+			}
 			if yes {
 				accepted++
 				// the basic kind of the method's result that this accepting path insisted on (if any)
